@@ -101,6 +101,11 @@ class Continue(Exception):
     pass
 
 
+class Goto(Exception):
+    def __init__(self, label):
+        self.label = label
+
+
 class Break(Exception):
     pass
 
@@ -168,6 +173,15 @@ class Interp:
         self.env = saved
         return None
 
+    def run_env(self, env):
+        """run the body with an explicit initial environment (parameters, `this`, named constants)"""
+        self.env = dict(env)
+        try:
+            self.block(self.f['body'])
+        except Ret as r:
+            return r.v
+        raise Unmodelled('%s: falls off the end' % self.f['name'])
+
     # ---------- statements
     def block(self, st):
         self.steps += 1
@@ -177,8 +191,19 @@ class Interp:
             return
         k = st.get('k')
         if k == 'seq':
-            for c in st['c']:
-                self.block(c)
+            items = [c for c in st['c'] if isinstance(c, dict)]
+            i = 0
+            while i < len(items):
+                try:
+                    self.block(items[i])
+                except Goto as g:
+                    # a forward jump to a label of this block
+                    tgt = [j for j, c in enumerate(items) if c.get('k') == 'label' and c.get('l') == g.label]
+                    if not tgt:
+                        raise
+                    i = tgt[0]
+                    continue
+                i += 1
         elif k == 'if':
             if self.truth(st['cond']):
                 self.block(st['then'])
@@ -194,6 +219,10 @@ class Interp:
             self.loop(st)
         elif k == 'throw':
             raise Thrown()
+        elif k == 'goto':
+            raise Goto(st.get('l'))
+        elif k == 'label':
+            self.block(st.get('body'))
         elif k == 'continue':
             raise Continue()
         elif k == 'break':
@@ -271,6 +300,8 @@ class Interp:
             n = e['n']
             if n in self.env:
                 return self.env[n]
+            if n.split('::')[-1] in self.env:
+                return self.env[n.split('::')[-1]]
             if n.endswith('PTRef_Undef'):
                 return UNDEF
             if n.endswith('PtAsgn_Undef'):
@@ -278,6 +309,8 @@ class Interp:
             if e.get('d') == 'enum':
                 return ('enum', n.split('::')[-1])
             raise Unmodelled('unknown name %s at line %s' % (n, e.get('ln')))
+        if k == 'mem' and see_through(e['b']).get('k') == 'this' and ('mem:' + e['n']) in self.oracle:
+            return self.oracle['mem:' + e['n']](self, [self.env.get('this', ('this',))], e)
         if k == 'mem' and see_through(e['b']).get('k') == 'this':
             if e['n'] in ('term_TRUE', 'term_FALSE'):
                 return T if e['n'] == 'term_TRUE' else F
@@ -288,15 +321,33 @@ class Interp:
             b = self.val(e['b'])
             if isinstance(b, tuple) and b and b[0] == 'asgn' and e['n'] in ('tr', 'sgn'):
                 return b[1] if e['n'] == 'tr' else b[2]
+            if ('mem:' + e['n']) in self.oracle:
+                return self.oracle['mem:' + e['n']](self, [b], e)
             raise Unmodelled('member %s at line %s' % (e['n'], e.get('ln')))
+        if k == 'this':
+            return self.env.get('this', ('this',))
+        if k == 'idx':
+            b = self.val(e['b'])
+            i = self.val(e['i']) if e.get('i') is not None else self.val(e.get('a', [None])[0])
+            if isinstance(b, list) and isinstance(i, int) and 0 <= i < len(b):
+                return b[i]
+            if ('idx') in self.oracle:
+                return self.oracle['idx'](self, [b, i], e)
+            raise Unmodelled('subscript at line %s' % e.get('ln'))
         if k == 'un':
             if e['op'] == '!':
                 return not self.truth(e['e'])
             if e['op'] in ('++', '--'):
                 n = path_of(e['e'])
+                if n not in self.env and (n or '').startswith('this.'):
+                    return 0            # a statistics counter of the object
                 old = self.env[n]
                 self.env[n] = old + (1 if e['op'] == '++' else -1)
                 return old if e.get('post') else self.env[n]
+            if e['op'] == '~':
+                v = self.val(e['e'])
+                if isinstance(v, int):
+                    return ~v
             raise Unmodelled('unary %s' % e['op'])
         if k == 'bin':
             op = e['op']
@@ -317,8 +368,8 @@ class Interp:
             l, r = self.val(e['l']), self.val(e['r'])
             if op in ('==', '!='):
                 return (l == r) == (op == '==')
-            if op in ('<', '<=', '>', '>=', '-', '+') and isinstance(l, int) and isinstance(r, int):
-                return {'<': l < r, '<=': l <= r, '>': l > r, '>=': l >= r, '-': l - r, '+': l + r}[op]
+            if op in ('<', '<=', '>', '>=', '-', '+', '&', '|') and isinstance(l, int) and isinstance(r, int):
+                return {'<': l < r, '<=': l <= r, '>': l > r, '>=': l >= r, '-': l - r, '+': l + r, '&': l & r, '|': l | r}[op]
             if op == '=':
                 n = path_of(e['l'])
                 if n in self.env:
@@ -345,6 +396,10 @@ class Interp:
         m = mname(e)
         op = e.get('op')
         args = e.get('a') or []
+        if op and ('op:' + op) in self.oracle:
+            ans = self.oracle['op:' + op](self, ([self.val(e['recv'])] if e.get('recv') is not None else []) + [self.val(x) for x in args], e)
+            if ans is not NotImplemented:
+                return ans
         if op == '[]':
             base = self.val(e['recv'])
             i = self.val(args[0])
@@ -373,8 +428,14 @@ class Interp:
                     base[i] = v
                     return v
             raise Unmodelled('assignment target at line %s' % e.get('ln'))
+        if '::operator ' in callee(e) and not op and e.get('recv') is not None:
+            b = self.val(e['recv'])
+            if isinstance(b, tuple) and b and b[0] == 'clause':
+                return b[1]                 # conversion of a clause to its literal array
         if m in ('size', 'size_') and e.get('recv') is not None:
             b = self.val(e['recv'])
+            if isinstance(b, tuple) and b and b[0] == 'clause':
+                return len(b[1])
             if isinstance(b, list):
                 return len(b)
             if isinstance(b, tuple) and b and b[0] == 'pterm':
